@@ -5,6 +5,8 @@ import random
 import lib
 
 PREFIXES = [b"", b">", b"> ", b"\n", b"-\n"]
+# prefixes that mean something to printf, regexp replacement templates, path or shell expansion
+ODD_PREFIXES = [b"$$ ", b"$1", b"${0}", b"$HOME> ", b"%s ", b"%d%%", b"\\1", b"\\n", b"&", b"$", b"\x00", b"\r", b"\r\n", b"\xff\xfe"]
 
 
 def render(prefix, at_start, chunk):
@@ -167,6 +169,15 @@ def gen(tier, seed):
         text = bytes(rnd.choice(b"a\n\n\r\x80\xff\xc3\xa9\xe2\x82\xed\xa0\xf4\x90") for _ in range(n))
         p = rnd.choice(PREFIXES[1:] + [b"\xff", b"\xc3\xa9 "])
         cases.append("bytes %s %s" % (lib.hexs(p), lib.hexs(text)))
+    # odd prefixes: one-shot functions and writer, every chunking of short texts
+    for p in ODD_PREFIXES:
+        for text in (b"x", b"x\n", b"a\nb", b"a\n\nb\n", b"$1\n$$\n", b"%s\n"):
+            cases.append("bytes %s %s" % (lib.hexs(p), lib.hexs(text)))
+            for chunks in histories(text, p):
+                cases.append(case_line(p, [(c, None) for c in chunks]))
+            joined, _ = render(p, True, text)
+            for n in range(len(joined) + 1):
+                cases.append(case_line(p, [(text, n)]))
     # one-shot functions
     for n in range(0, 7):
         for text in itertools.product(b"a\n", repeat=n):
